@@ -17,7 +17,7 @@ def queries():
             qs.append(Q('b64_n%d_lb%d' % (n, lb), 'h_base64', 'base64: encode == RFC 4648, decode(encode(m)) == m; message length %d, line_break %d, all byte values' % (n, lb),
                         ['N=%d' % n, 'LB=%d' % lb], ['base64.cpp'], quick=quick, weight=n))
     for n in range(0, 6):
-        qs.append(Q('b64strict_n%d' % n, 'h_base64_strict', 'strict/non-strict base64_decode on arbitrary input of length %d, all byte values' % n, ['N=%d' % n], ['base64.cpp'], quick=n <= 3, weight=n))
+        qs.append(Q('b64strict_n%d' % n, 'h_base64_strict', 'strict/non-strict base64_decode on arbitrary input of length %d, all byte values' % n, ['N=%d' % n], ['base64.cpp'], quick=n <= 2, weight=n))
     for n in range(0, 7):
         qs.append(Q('hex_n%d' % n, 'h_hexdump', 'hexdump/hexdump_lc == base16, parse_hexdump inverts both; length %d, all byte values' % n, ['N=%d' % n], ['hexdump.cpp'], quick=n <= 3, weight=n))
     for n in range(0, 5):
